@@ -22,7 +22,7 @@ emit("orig", run(f))
 emit("copy", run(g))
 `
 
-var vhDumpFns = [8]string{
+var vhDumpFns = [8]string{ // a ninth, generated shape is added by vhManyLocals
 	// constants of every type, nested function, varargs, upvalue _ENV
 	"local a, b = ... return a + 1, b * 2.5, 'str', 'a-longer-string-constant', true, nil",
 	"local a, b = ... local function sq(x) return x * x end return sq(a) - sq(b)",
@@ -38,9 +38,15 @@ var vhDumpFns = [8]string{
 
 func VerifH_C13_dump_load_equivalent() {
 	run := vhNewRun()
-	k := verifChoose("fn", 8)
+	k := verifChoose("fn", 9)
 	a, b := nondetInt64("a"), nondetInt64("b")
-	_, err := run.lua(vhDumpHarness, vhStr(vhDumpFns[k]), vhInt(a), vhInt(b))
+	src := ""
+	if k < 8 {
+		src = vhDumpFns[k]
+	} else {
+		src = vhManyLocals()
+	}
+	_, err := run.lua(vhDumpHarness, vhStr(src), vhInt(a), vhInt(b))
 	verifAssert(err == nil, "chunk-runs")
 	tr := run.trace
 	verifAssert(len(tr) >= 5 && vhSame(tr[0], vhStr("dump-deterministic")) && vhSame(tr[1], rt.BoolValue(true)) && vhSame(tr[2], rt.BoolValue(true)), "dump-is-deterministic-and-idempotent")
@@ -59,4 +65,30 @@ func VerifH_C13_dump_load_equivalent() {
 	}
 	orig, cp := tr[i0+1:i1], tr[i1+1:]
 	verifAssert(len(orig) >= 1 && vhTraceIs(cp, orig...), "reloaded-function-observationally-equal")
+}
+
+// vhManyLocals: a function with 140 plain locals and 120 locals captured by an
+// inner closure (value registers + cells > 255, each bank below its limit)
+func vhManyLocals() string {
+	num := func(i int) string {
+		s := ""
+		for i > 0 || s == "" {
+			s = string(rune('0'+i%10)) + s
+			i /= 10
+		}
+		return s
+	}
+	src := "local a, b = ...\n"
+	for i := 0; i < 140; i++ {
+		src += "local p" + num(i) + " = a + " + num(i) + "\n"
+	}
+	for i := 0; i < 120; i++ {
+		src += "local c" + num(i) + " = b + " + num(i) + "\n"
+	}
+	src += "local function inner() return c0"
+	for i := 1; i < 120; i++ {
+		src += " + c" + num(i)
+	}
+	src += " end\nreturn p0 + p139, inner()"
+	return src
 }
